@@ -182,6 +182,64 @@ fn main() {
                 }
             }
         }
+        // recaps T N: ONE instance, ONE master key / public key / original encapsulation (after a rekey) shared by T threads
+        // that re-encapsulate it N times each at the same moment: every result is a NEW secret and a NEW encapsulation
+        // that the refreshed key of the audience opens to exactly that secret and the other key does not open
+        Some("recaps") => {
+            let t: usize = a[2].parse().unwrap(); let n: usize = a[3].parse().unwrap();
+            let cc = Arc::new(Covercrypt::default());
+            let mut w = world(&cc);
+            cc.rekey(&mut w.msk, &ap("D::b")).unwrap();
+            w.mpk = cc.update_msk(&mut w.msk).unwrap();
+            cc.refresh_usk(&mut w.msk, &mut w.usk_b, true).unwrap();
+            let w = Arc::new(w); let bar = Arc::new(std::sync::Barrier::new(t));
+            let hs: Vec<_> = (0..t).map(|_| { let cc = cc.clone(); let w = w.clone(); let bar = bar.clone(); std::thread::spawn(move || {
+                bar.wait();
+                let mut out = vec![]; let mut errs = vec![];
+                for _ in 0..n {
+                    match cc.recaps(&w.msk, &w.mpk, &w.enc_b) {
+                        Ok((s, e)) => { let b = e.serialize().unwrap();
+                            out.push(format!("VAL secret {}", hex(&*s))); out.push(format!("VAL tag {}", hex(&b[..16]))); out.push(format!("VAL trap {}", hex(&b[17..17 + PT])));
+                            if cc.decaps(&w.usk_b, &e).ok().flatten() != Some(s) { errs.push("the refreshed key of the audience does not open the re-encapsulation to its secret".to_string()); }
+                            if cc.decaps(&w.usk, &e).ok().flatten().is_some() { errs.push("a key outside the audience opens the re-encapsulation".to_string()); } }
+                        Err(e) => errs.push(format!("recaps failed: {e}")),
+                    }
+                }
+                (out, errs) }) }).collect();
+            for (ti, h) in hs.into_iter().enumerate() { match h.join() {
+                Ok((out, errs)) => { for l in out { println!("{l}"); } for e in errs { println!("FAIL call in thread {ti}: {e}"); } println!("OK thread {ti} finished {n} calls"); }
+                Err(_) => println!("FAIL thread {ti} panicked"), } }
+        }
+        // burst I T N [kind]: I instances, each CREATED inside its own thread and FIRST USED by T threads at once (barrier),
+        // N calls per thread (all of the given kind, or the mixed cycle); the values of all instances are pooled: a
+        // generator that is not independent per instance / per creating thread, or that is not ready at the first
+        // concurrent use, shows as a repeated value
+        Some("burst") => {
+            let ni: usize = a[2].parse().unwrap(); let t: usize = a[3].parse().unwrap(); let n: usize = a[4].parse().unwrap();
+            let kind: Option<usize> = a.get(5).map(|x| x.parse().unwrap());
+            let hs: Vec<_> = (0..ni).map(|_| std::thread::spawn(move || {
+                let cc = Arc::new(Covercrypt::default());          // created by this thread
+                let bar = Arc::new(std::sync::Barrier::new(t));
+                let ws: Vec<_> = (0..t).map(|_| { let cc = cc.clone(); let bar = bar.clone(); std::thread::spawn(move || {
+                    bar.wait();
+                    let mut out = vec![]; let mut errs = vec![];
+                    // the very first call of this thread on the instance is an encapsulation-free setup; its public values count
+                    let (msk, mpk) = setup(&cc);
+                    out.push(format!("VAL setup {}", hex(&mpk.serialize().unwrap()[1..1 + PT])));
+                    let msk = Mutex::new(msk);
+                    for k in 0..n { if let Err(e) = vals_of_call(&cc, &msk, &mpk, kind.unwrap_or([0, 1, 2, 6, 3, 4][k % 6]), &mut out) { errs.push(e); } }
+                    (out, errs) }) }).collect();
+                ws.into_iter().map(|w| w.join()).collect::<Vec<_>>()
+            })).collect();
+            for (ii, h) in hs.into_iter().enumerate() {
+                match h.join() {
+                    Ok(rs) => for (ti, r) in rs.into_iter().enumerate() { match r {
+                        Ok((out, errs)) => { for l in out { println!("{l}"); } for e in errs { println!("FAIL call in instance {ii} thread {ti}: {e}"); } println!("OK thread {ii}.{ti} finished"); }
+                        Err(_) => println!("FAIL instance {ii} thread {ti} panicked"), } },
+                    Err(_) => println!("FAIL instance {ii} panicked"),
+                }
+            }
+        }
         _ => println!("usage"),
     }
 }
